@@ -705,7 +705,11 @@ def invalidate(gen, t, v):
     elif isinstance(inner, Boolean):
         out += [['i', 1], ['i', 0], ['s', 'true'], ['n']]
     elif isinstance(inner, Timestamp):
-        out += [['s', '2015-05-12T15:50:38Z'], ['i', 0], gen.junk()]
+        out += [# aware datetimes: any offset other than UTC is refused, UTC is accepted
+                ['t', gen.ts.id_of(TS_POOL[0].replace(tzinfo=datetime.timezone(datetime.timedelta(hours=2)))), False],
+                ['t', gen.ts.id_of(TS_POOL[1].replace(tzinfo=datetime.timezone.utc)), True],
+                ['s', '2015-05-12T15:50:38Z'], ['i', 0], gen.junk(),
+                ['t', gen.ts.id_of(TS_POOL[1].replace(tzinfo=datetime.timezone(datetime.timedelta(minutes=-30)))), False]]
     elif isinstance(inner, List):
         if v[0] == 'l':
             items = v[1]
